@@ -106,7 +106,7 @@ def run_tlc(ctx, module, cfg, workers=None, extra=None, env_extra=None, timeout=
     os.makedirs(tmp)
     cmd = ["tlc", "-workers", str(workers or min(NCPU, 8)), "-metadir", os.path.join(d, "md"), "-config", "run.cfg"]
     if simulate:
-        cmd += ["-simulate", simulate]
+        cmd += ["-simulate", simulate, "-depth", "200", "-seed", str(ctx.seed * 7919 + len(ctx.tlc_runs))]
     if extra:
         cmd += extra
     cmd.append(module + ".tla")
